@@ -89,7 +89,7 @@ def polynomial(chk, P, I, inst):
     site = inst.ci.lookup("__call__").site()
     r = ep.sym("r")
     total = 0
-    for order in range(0, 9):
+    for order in range(0, 17 if chk.tier == "thorough" else 9):
         cs = [ep.sym("c%d" % i) for i in range(order + 1)]
         v = I.num(I.call(inst, [Num(r)] + [Num(c) for c in cs], {}))
         want = ep.const(0)
